@@ -126,7 +126,9 @@ where
         let (start, end) = self.get_limits(layouter, input)?;
         let mut is_data: AssignedBit<F> = ng.assign_fixed(layouter, true)?;
 
-        let result = (0..M - A)
+        // The data may start at the beginning of the last chunk (0 < len <= A), i.e. at
+        // position M - A, hence the inclusive range.
+        let result = (0..=M - A)
             .map(|i| {
                 let is_start = ng.is_equal_to_fixed(layouter, &start, F::from(i as u64))?;
                 is_data = ng.xor(layouter, &[is_data.clone(), is_start])?;
@@ -134,7 +136,8 @@ where
             })
             .collect::<Result<Vec<_>, Error>>()?;
 
-        let last_chunk = (M - A..M)
+        // `end` lies in (M - A, M]: the first position of the last chunk never holds it.
+        let last_chunk = (M - A + 1..M)
             .map(|i| {
                 let is_end = ng.is_equal_to_fixed(layouter, &end, F::from(i as u64))?;
                 is_data = ng.xor(layouter, &[is_data.clone(), is_end])?;
